@@ -171,11 +171,15 @@ class FailingLearner:
         if self.where == "params": raise Exception("verif: params failure")
         return {"family": "Failing", "where": self.where, "k": self.k}
     def predict(self, context, actions):
+        from coba.context import CobaContext
         self.c["predict"] += 1
+        CobaContext.learning_info["diag_predicts"] = self.c["predict"]      # diagnostics published before the failure must not reach another evaluation
         if self.where == "predict" and self.c["predict"] == self.k: raise Exception("verif: predict failure")
         return actions[self.c["predict"] % len(actions)], 1.0
     def learn(self, context, action, reward, probability, **kw):
+        from coba.context import CobaContext
         self.c["learn"] += 1
+        CobaContext.learning_info["diag_learns"] = self.c["learn"]
         if self.where == "learn" and self.c["learn"] == self.k: raise Exception("verif: learn failure")
 class FailingEnv:
     def __init__(self, k): self.k = k
@@ -186,6 +190,17 @@ class FailingEnv:
         for i, x in enumerate(Environments.from_linear_synthetic(6, n_actions=3, seed=7)[0].read()):
             if i == self.k: raise Exception("verif: read failure")
             yield x
+class SlowPickleEnv:
+    """an environment that is slow to serialise (the loader thread lags behind the workers) but yields the same interactions"""
+    def __init__(self, n, seed, delay): self.n, self.seed, self.delay = n, seed, delay
+    @property
+    def params(self): return {"env_type": "SlowPickle", "seed": self.seed}
+    def read(self):
+        from coba.environments import Environments
+        return Environments.from_linear_synthetic(self.n, n_actions=3, n_context_features=2, n_action_features=2, seed=self.seed)[0].read()
+    def __getstate__(self):
+        import time; time.sleep(self.delay); return dict(self.__dict__)
+    def __setstate__(self, d): self.__dict__.update(d)
 def custom_eval(env, lrn):
     """a custom evaluator given as a function"""
     from coba.safety import SafeLearner
@@ -208,6 +223,7 @@ def build(spec):
         kind = e[0]
         if kind == "lin": envs.append(Environments.from_linear_synthetic(e[1], n_actions=3, n_context_features=2, n_action_features=2, seed=e[2])[0])
         elif kind == "fail": envs.append(FailingEnv(e[1]))
+        elif kind == "slow": envs.append(SlowPickleEnv(e[1], e[2], e[3]))
         elif kind == "group":      # several environments sharing a prefix: base -> [chunk/cache] -> shuffle(n) fan-out [-> batch]
             gid = e[1]
             if gid not in groups:
@@ -275,11 +291,14 @@ def run_jobs(jobs, tag, per_job=25):
     try:
         env = dict(os.environ, PYTHONHASHSEED="0")
         hung = None
+        import signal
+        pr = subprocess.Popen([sys.executable, "-W", "ignore", sf, jf], stdout=subprocess.PIPE, stderr=subprocess.PIPE, text=True, env=env, start_new_session=True)
         try:
-            p = subprocess.run([sys.executable, "-W", "ignore", sf, jf], capture_output=True, text=True, timeout=60 + per_job * len(jobs), env=env)
-            out, err = p.stdout, p.stderr
-        except subprocess.TimeoutExpired as e:
-            out = (e.stdout or b"").decode() if isinstance(e.stdout, bytes) else (e.stdout or ""); err = ""; hung = -1
+            out, err = pr.communicate(timeout=60 + per_job * len(jobs))
+        except subprocess.TimeoutExpired:
+            try: os.killpg(pr.pid, signal.SIGKILL)      # the child interpreter and every worker process it spawned
+            except OSError: pass
+            out, err = pr.communicate(); hung = -1
         done, started = {}, -1
         for line in out.splitlines():
             try: rec = json.loads(line)
